@@ -107,8 +107,16 @@ def make_program(cfg):
                 if name is None:
                     continue
                 t = data(rank, cycle, i, shape, dtype, sym)
+                t_in = t.clone()
+                if len(shape) == 2 and shape[0] != shape[1]:
+                    # non-square matrices are submitted as NON-CONTIGUOUS
+                    # views (every other column of a wider buffer)
+                    wide = torch.full((shape[0], 2 * shape[1]), -7.0,
+                                      dtype=t.dtype)
+                    t_in = wide[:, ::2]
+                    t_in.copy_(t)
                 fut = tdc.allreduce_bucketed(
-                    t.clone(), average=avg, group=handles[name],
+                    t_in, average=avg, group=handles[name],
                     symmetric=sym)
                 pend.append((i, fut, mem, op))
                 # operation boundary: a completion (and its callbacks) may
